@@ -857,3 +857,23 @@ func (s *verifBatch) CreateRelationshipByIDs(startNodeID, endNodeID graph.ID, ki
 	s.database.mutations = append(s.database.mutations, "edge "+s.graph)
 	return nil
 }
+
+// ---- scrubber stub -----------------------------------------------------------------------
+// With Scrub=full the dump's bookkeeping (action counts per fragment, per graph and per dump,
+// checkpoint identity, resume) is the subject; the scrubber itself (TOML configuration,
+// regular expressions, HMAC pseudonyms) is replaced by an opaque transformer that keeps the
+// properties and reports one pseudonymised and len(properties) preserved values per entity.
+
+func verifNewScrubber(configReader io.Reader, salt string) (*scrubber, error) {
+	return &scrubber{config: ScrubberConfig{Salt: strings.TrimSpace(salt), FakeDomain: "example.test", RedactionMarker: "[REDACTED]"}}, nil
+}
+
+func verifScrubberForGraph(s *scrubber) *scrubber { return s }
+
+func verifScrubPropertiesWithCounts(s *scrubber, properties map[string]any) (map[string]any, scrubActionCounts) {
+	scrubbed := make(map[string]any, len(properties))
+	for key, value := range properties {
+		scrubbed[key] = value
+	}
+	return scrubbed, scrubActionCounts{preserve: len(properties), pseudonymize: 1}
+}
